@@ -50,6 +50,14 @@ static void* svr_owner(void* arg) { long i; U64 low = htop - 1; (void)arg; pthre
     hstop = 1; return NULL; }
 static void* svr_flipper(void* arg) { long me = (long)arg; pthread_barrier_wait(&bar);
     while (!hstop) (void)hf(inst[me], haddr, htop, 0); return NULL; }
+#define TORN_P1 0x1122334455667788ULL
+#define TORN_P2 0xEEDDCCBBAA998877ULL
+static void* torn_writer(void* a) { long i; (void)a; pthread_barrier_wait(&bar);
+    for (i = 0; i < hn; i++) hst(inst[0], haddr, (i & 1 ? TORN_P1 : TORN_P2) & hmask, 0);
+    hstop = 1; return NULL; }
+static void* torn_reader(void* a) { (void)a; pthread_barrier_wait(&bar);
+    while (!hstop) { U64 x = hld(inst[1], haddr, 0, 0) & hmask; if (x != 0 && x != (TORN_P1 & hmask) && x != (TORN_P2 & hmask)) hbad++; }
+    return NULL; }
 static fn hxchg; static U64 hdrained; static volatile long hadders;
 static void* mix_adder(void* arg) { long me = (long)arg, i; pthread_barrier_wait(&bar);
     for (i = 0; i < hn; i++) (void)hf(inst[me], haddr, 1, 0);
@@ -131,6 +139,23 @@ int main(int argc, char** argv) {
             stale += hbad;
         }
         printf("{\"op\":\"mp\",\"rounds\":%ld,\"stale\":%ld}\n", rounds, stale);
+        return 0;
+    }
+    if (!strcmp(argv[1], "torn")) {
+        /* an atomic load returns a value that was stored: one thread keeps storing two patterns whose bytes all differ, the other
+         * loads; anything else than one of the two patterns (or the initial 0) was never in memory */
+        static const char* tags[] = {"16", "32", "32l", "64"}; static const int widths[] = {16, 32, 32, 64}; static const U32 cells[] = {72, 80, 80, 88};
+        int k; hn = argc > 3 ? atol(argv[3]) : 200000;
+        for (k = 0; k < 4; k++) {
+            char nm[16];
+            snprintf(nm, sizeof nm, "st%s", tags[k]); hst = lookup(nm); snprintf(nm, sizeof nm, "ld%s", tags[k]); hld = lookup(nm);
+            haddr = cells[k]; hmask = widths[k] == 64 ? ~(U64)0 : (((U64)1 << widths[k]) - 1); hstop = 0; hbad = 0;
+            hst(&root, haddr, 0, 0);
+            pthread_barrier_init(&bar, NULL, 2);
+            pthread_create(&th[0], NULL, torn_writer, NULL); pthread_create(&th[1], NULL, torn_reader, NULL);
+            pthread_join(th[0], NULL); pthread_join(th[1], NULL);
+            printf("{\"op\":\"torn%s\",\"threads\":2,\"per_thread\":%ld,\"lost\":%ld,\"bad_final\":0}\n", tags[k], hn, hbad);
+        }
         return 0;
     }
     if (!strcmp(argv[1], "hammer")) {
